@@ -58,6 +58,7 @@ var propSpecs = map[string]*PropSpec{
 		Level:       "proof",
 		Explanation: "per-node contracts: a purge that originates on a node fires the broadcast hook exactly once and a purge applied for a peer never does (caches.purge/Purge/PurgeLocal); a broadcast asks every active peer other than this node exactly once (ListActiveMembers is the filter of the member list, BroadcastCacheFlush calls SendCacheFlush once per peer with the cache id and the origin hop count, SendCacheFlush issues at most one request, to that peer); the flush handler discards the named cache and sends nothing (no hook firing, no SendCacheFlush, no request)",
 		TrustedBase: []string{"the cluster table read by ListMembers is the membership (database/sql)", "net/http delivers or loses a request (message delays/drops are outside the contracts)", "the hook OnPurge is BroadcastCacheFlush in cluster mode (cluster.Initialize) and nil otherwise"},
+		Extra:       c29Extra,
 	},
 	"C28": {
 		Patterns:    []string{"./..."},
